@@ -6,10 +6,11 @@
 (* iterations; Hist = FALSE forgets them after every step (the step assertions have seen them) and the  *)
 (* model runs for ever.  Attrs = "all": every attribute vector, "same": all agents alike.               *)
 (* Dirs: the quarter turns a move may take (a subset of 0..3; two of them reach every placement).       *)
+(* CheckSucc: also assert that the validator's relation IsSuccessor accepts every step (costly).        *)
 (* Mutant # "none" switches a fault of GAM!Effect on; Control # "none" asserts a  *)
 (* statement that the code does NOT promise (TLC must refute it).                                       *)
 EXTENDS GAM
-CONSTANTS N, P, R2N, R2D, V, HMode, AL, RL, MaxIt, Hist, Mutant, Control, Attrs, Dirs
+CONSTANTS N, P, R2N, R2D, V, HMode, AL, RL, MaxIt, Hist, Mutant, Control, Attrs, Dirs, CheckSucc
 VARIABLES st, par
 vars == <<st, par>>
 
@@ -53,7 +54,7 @@ StepOK(S, nbr, moved, Q) ==     \* Q.pos is not looked at here
   /\ Assert(RecordsAreGroups(S, Q, par), <<"RecordsAreGroups", S, Q>>)
   /\ Assert(GroupsAreRecorded(S, Q, par), <<"GroupsAreRecorded", S, Q>>)
   /\ Assert(\A r \in Q.traj \ S.traj : r[1] = S.it /\ \A o \in S.traj : o[1] <= r[1], <<"TimesNonDecreasing", S, Q>>)
-  /\ Assert(Mutant # "none" \/ IsSuccessor(S, nbr, par, moved, Q), <<"IsSuccessor", S, Q>>)
+  /\ Assert(Mutant # "none" \/ ~CheckSucc \/ IsSuccessor(S, nbr, par, moved, Q), <<"IsSuccessor", S, Q>>)
   /\ Assert(ControlHolds(S, nbr, moved, Q), <<"Control", Control, S, Q>>)
 MoveOK(S, moved, pos2) ==
   Assert(\A i \in Ag : IF i \in moved THEN AtMost(S.pos[i], pos2[i], P, par.v2) /\ (2 * V <= P => OnRadius(S.pos[i], pos2[i], P, par.v2))
